@@ -315,6 +315,15 @@ func c20Link(c *core.Ctx, k c20Case) {
 
 // ---- export of a profile: ClientProfileToMultiURLs ---------------------------------------------
 
+func c20IsASCII(s string) bool {
+	for i := 0; i < len(s); i++ {
+		if s[i] >= 0x80 {
+			return false
+		}
+	}
+	return true
+}
+
 func c20Flat(bs []*pb.PortBinding) string {
 	f, err := appctlcommon.FlatPortBindings(bs)
 	if err != nil {
@@ -379,13 +388,24 @@ func c20Export(c *core.Ctx, k c20Case) {
 		if host == "" {
 			host = srv.GetIpAddress()
 		}
-		plainHost := host != "" && strings.Trim(host, "abcdefghijklmnopqrstuvwxyzABCDEFGHIJKLMNOPQRSTUVWXYZ0123456789.-_") == "" || net.ParseIP(host) != nil
-		if !valid || !plainHost {
-			c.Hist("roundtrip", "skipped:invalid-profile-or-odd-host")
+		if !valid {
+			c.Hist("roundtrip", "skipped:profile-not-valid")
 			continue
 		}
+		// finding keys say WHY a validated profile does not survive: the host is not a host name / carries a
+		// port, or a binding sets both port and portRange
+		hostClass := ""
+		if net.ParseIP(host) == nil {
+			switch {
+			case strings.Trim(host, "abcdefghijklmnopqrstuvwxyzABCDEFGHIJKLMNOPQRSTUVWXYZ0123456789.-_~") == "" || !c20IsASCII(host) && !strings.ContainsAny(host, " :/?#@[]<>\"%\\^`{|}"):
+			case strings.Contains(host, ":"):
+				hostClass = "/host-has-colon"
+			default:
+				hostClass = "/host-not-a-hostname"
+			}
+		}
 		if ierr != nil {
-			c.Violate("C20/mierus-roundtrip/import-fails", fmt.Sprintf("the exported link %.200q is rejected: %v", us, ierr), k)
+			c.Violate("C20/mierus-roundtrip/import-fails"+hostClass, fmt.Sprintf("the exported link %.200q is rejected: %v", us, ierr), k)
 			continue
 		}
 		c.Hist("roundtrip", "checked")
@@ -414,9 +434,14 @@ func c20Export(c *core.Ctx, k c20Case) {
 		case !proto.Equal(q.GetTrafficPattern(), p.GetTrafficPattern()) && !(proto.Size(p.GetTrafficPattern()) == 0 && q.TrafficPattern == nil):
 			diff = "trafficPattern"
 		case qhost != host:
-			diff = "server.host"
+			diff = "server.host" + hostClass
 		case c20Flat(qs.GetPortBindings()) != c20Flat(srv.GetPortBindings()):
 			diff = "server.portBindings"
+			for _, b := range srv.GetPortBindings() {
+				if b.GetPort() != 0 && b.GetPortRange() != "" {
+					diff = "server.portBindings/port-and-range-both-set"
+				}
+			}
 		}
 		if diff != "" {
 			c.Violate("C20/mierus-roundtrip/"+diff, fmt.Sprintf("import(export(profile)) differs in %s (link %.200q)", diff, us), k)
